@@ -1,5 +1,5 @@
 """Per-property claims (source of MANIFEST.json, regenerate with bin/mkmanifest.py)."""
-SOURCE_COMMITS = ["7e146d4"]   # fix: commits in /repo (no hook commits are needed)
+SOURCE_COMMITS = ["7e146d4", "9424340"]   # fix: commits in /repo (no hook commits are needed)
 
 _NOTE = ("Trusted: PyVC (interpreter, VC generation), z3, the numpy/builtins stubs (assumed contracts of dependencies, listed in the "
          "evidence), floats treated as reals except in comparisons, unbounded ints, partial correctness. ")
@@ -11,4 +11,9 @@ CHECKS = {
                  "every clause is discharged by z3 for all inputs; counterexamples are replayed on the real code.",
          "note": _NOTE + "The statistics clauses of fill/fill_n/construction are bounded (array extents fixed) and reported separately."},
 }
+CHECKS["C01"] = {"category": "other", "technique": "contract-based VC generation from the real AST, z3; bounded array extents (labelled bounded, not proved)",
+   "text": "The ensures clauses of h1 are taken from the property statement (per-bin weight sums, squared errors, under/overflow accounting, NaN "
+           "markers for gapped bins). The real source of h1 and everything it calls is executed symbolically for every path with symbolic values, weights "
+           "and edges; array extents are fixed per configuration (data length <= 3, bins <= 3), so these obligations are a bounded stand-in, never counted as proved.",
+   "note": _NOTE + "Bounded: extents fixed (n<=3 values, m<=3 bins). argsort/searchsorted are assumed contracts (permutation + sortedness; counting)."}
 NOT_APPLICABLE = {}
